@@ -25,6 +25,28 @@ type faultCtl struct {
 	count  int
 	log    []string
 	fired  string
+	err    error // what a failing call returns (nil: errInjected)
+}
+
+// faultErrors: what a failing driver call may return. SQLite reports lock contention, I/O
+// errors and a full disk through sqlite3.Error values; a caller must treat every one of them
+// as "this statement did not run".
+var faultErrors = map[string]error{
+	"generic": errInjected,
+	"busy":    sqlite3.Error{Code: sqlite3.ErrBusy},
+	"locked":  sqlite3.Error{Code: sqlite3.ErrLocked},
+	"ioerr":   sqlite3.Error{Code: sqlite3.ErrIoErr},
+	"full":    sqlite3.Error{Code: sqlite3.ErrFull},
+	"timeout": context.DeadlineExceeded,
+}
+
+func (c *faultCtl) errNow() error {
+	c.mu.Lock()
+	defer c.mu.Unlock()
+	if c.err != nil {
+		return c.err
+	}
+	return errInjected
 }
 
 func (c *faultCtl) arm(failAt int) {
@@ -74,7 +96,7 @@ type faultConn struct {
 
 func (c *faultConn) BeginTx(ctx context.Context, opts driver.TxOptions) (driver.Tx, error) {
 	if theFaultCtl.hit("begin") {
-		return nil, errInjected
+		return nil, theFaultCtl.errNow()
 	}
 	tx, err := c.SQLiteConn.BeginTx(ctx, opts)
 	if err != nil {
@@ -106,7 +128,7 @@ func stmtKind(q string) string {
 func (c *faultConn) PrepareContext(ctx context.Context, q string) (driver.Stmt, error) {
 	kind := stmtKind(q)
 	if theFaultCtl.hit("prepare:" + kind) {
-		return nil, errInjected
+		return nil, theFaultCtl.errNow()
 	}
 	st, err := c.SQLiteConn.PrepareContext(ctx, q)
 	if err != nil {
@@ -120,14 +142,14 @@ func (c *faultConn) PrepareContext(ctx context.Context, q string) (driver.Stmt, 
 // prepared statement) are driver calls as well.
 func (c *faultConn) ExecContext(ctx context.Context, q string, args []driver.NamedValue) (driver.Result, error) {
 	if theFaultCtl.hit("exec:" + stmtKind(q)) {
-		return nil, errInjected
+		return nil, theFaultCtl.errNow()
 	}
 	return c.SQLiteConn.ExecContext(ctx, q, args)
 }
 
 func (c *faultConn) QueryContext(ctx context.Context, q string, args []driver.NamedValue) (driver.Rows, error) {
 	if theFaultCtl.hit("query:" + stmtKind(q)) {
-		return nil, errInjected
+		return nil, theFaultCtl.errNow()
 	}
 	return c.SQLiteConn.QueryContext(ctx, q, args)
 }
@@ -143,7 +165,7 @@ type faultStmt struct {
 
 func (s *faultStmt) ExecContext(ctx context.Context, args []driver.NamedValue) (driver.Result, error) {
 	if theFaultCtl.hit("exec:" + s.kind) {
-		return nil, errInjected
+		return nil, theFaultCtl.errNow()
 	}
 	return s.SQLiteStmt.ExecContext(ctx, args)
 }
@@ -161,7 +183,7 @@ type faultTx struct{ driver.Tx }
 func (t *faultTx) Commit() error {
 	if theFaultCtl.hit("commit") {
 		_ = t.Tx.Rollback()
-		return errInjected
+		return theFaultCtl.errNow()
 	}
 	return t.Tx.Commit()
 }
